@@ -241,7 +241,7 @@ func BuildConcrete(u *Universe) (*Concrete, error) {
 		c.Size = append(c.Size, m.SerializeSize())
 		// legacy sigops * 4 (none of the scripts is P2SH, witness scripts carry no sigops)
 		c.SigCost = append(c.SigCost, blockchain.CountSigOps(tx)*blockchain.WitnessScaleFactor)
-		if u.Txs[i].Cls != "insane" && c.VSize[i] != u.Txs[i].VSize {
+		if u.Txs[i].Cls != "insane" && u.Txs[i].VSize != AutoSize && c.VSize[i] != u.Txs[i].VSize {
 			return nil, fmt.Errorf("universe %s: tx %d has vsize %d, wanted %d", u.Name, t, c.VSize[i], u.Txs[i].VSize)
 		}
 	}
@@ -310,7 +310,7 @@ func (c *Concrete) buildTx(t int) (*btcutil.Tx, error) {
 		return m
 	}
 	m := mk(0)
-	if spec.Cls != "insane" {
+	if spec.Cls != "insane" && spec.VSize != AutoSize {
 		vs := int((blockchain.GetTransactionWeight(btcutil.NewTx(m)) + 3) / 4)
 		if vs > spec.VSize {
 			return nil, fmt.Errorf("universe %s: tx %d cannot be smaller than %d vbytes (wanted %d)", u.Name, t, vs, spec.VSize)
